@@ -276,6 +276,41 @@ pub struct SegMix {
     pub only_small: bool,
 }
 
+/// "hot spot" histories: most ranges are drawn from a handful of buckets, so the same places are
+/// written again and again and their lists grow past 64 / 128 entries
+pub fn seg_hot_cases(prop: &'static str, w: [u32; 7], len: RangeInclusive<usize>, only_32: bool, mode: Option<(&'static str, &'static str)>) -> BoxedStrategy<Case> {
+    let doms: Vec<(i64, i64, &'static str)> = if only_32 {
+        vec![(0, 32, "i32"), (-16, 32, "i32")]
+    } else {
+        vec![(0, 32, "i32"), (0, 128, "i32"), (-10240, 25601, "i32"), (5, 17, "i32"), (0, 1000, "i64")]
+    };
+    (pick(&doms), 0..=27i64, 1..=4i64)
+        .prop_flat_map(move |((lo, dlen, rt), base, width)| {
+            let hot = base..=base + width;
+            let table = vec![
+                spec(w[0] * 4, S_INS, &[hot.clone(), 0..=1, hot.clone(), 0..=1, 0..=4]),
+                spec(w[0], S_INS, &[0..=31, 0..=3, 0..=31, 0..=3, 0..=4]),
+                spec(w[1] * 2, S_QUERY, &[hot.clone(), 0..=1, hot.clone(), 0..=1, 0..=5]),
+                spec(w[1], S_QUERY, &[0..=31, 0..=3, 0..=31, 0..=3, 0..=5]),
+                spec(w[2], S_ADV, &[0..=2]),
+                spec(w[3], S_CLEAR, &[0..=2]),
+                spec(w[4], S_QUERYALL, &[]),
+                spec(w[5] * 2, S_PINS, &[hot.clone(), 0..=1, 0..=4]),
+                spec(w[6], S_PQUERY, &[hot.clone(), 0..=1]),
+            ];
+            ops_strategy(&table, len.clone()).prop_map(move |ops| {
+                let mut c = Case::new(prop, "seg");
+                c.set("lo", lo).set("len", dlen).set("rtype", rt);
+                if let Some((k, v)) = mode {
+                    c.set(k, v);
+                }
+                c.ops = ops;
+                c
+            })
+        })
+        .boxed()
+}
+
 pub fn seg_table(w: &[u32; 7]) -> Vec<OpSpec> {
     vec![
         spec(w[0], S_INS, &[0..=31, 0..=11, 0..=31, 0..=11, 0..=4]),
